@@ -14,7 +14,7 @@
 (* a line kind is its sequence of lexical items.  The machine keeps the    *)
 (* TRUE Python lexical state -- outside strings (code), inside a triple    *)
 (* single-quoted string (tsq), triple double-quoted (tdq), inside a string *)
-(* with single quotes that was   *)
+(* with single (sqc) or double (dqc) quotes that was *)
 (* left open with backslash-newline (sqc); pending backslash continuation  *)
 (* (cont); indentation level due for the next statement (lvl) -- and       *)
 (* decides per line:                                                       *)
@@ -50,8 +50,16 @@ Kinds == <<
   [id |-> "ohs", start |-> "code", end |-> "tsq", cont |-> FALSE, opens |-> FALSE, stmt |-> TRUE, needcont |-> FALSE, toks |-> <<"code", "str", "code", "open3s", "text">>],
   [id |-> "oqd", start |-> "code", end |-> "tdq", cont |-> FALSE, opens |-> FALSE, stmt |-> TRUE, needcont |-> FALSE, toks |-> <<"code", "str", "code", "open3d", "text">>],
   [id |-> "ocd", start |-> "code", end |-> "tdq", cont |-> FALSE, opens |-> FALSE, stmt |-> TRUE, needcont |-> FALSE, toks |-> <<"code", "open3s", "text", "close3s", "code", "open3d", "text">>],
-  [id |-> "bs", start |-> "code", end |-> "code", cont |-> TRUE, opens |-> FALSE, stmt |-> TRUE, needcont |-> FALSE, toks |-> <<"code", "str", "code", "bs">>],
-  [id |-> "osq", start |-> "code", end |-> "sqc", cont |-> FALSE, opens |-> FALSE, stmt |-> TRUE, needcont |-> FALSE, toks |-> <<"code", "opensq", "text", "bs">>],
+  [id |-> "bs", start |-> "code", end |-> "code", cont |-> TRUE, opens |-> FALSE, stmt |-> TRUE, needcont |-> FALSE, toks |-> <<"code", "str", "code", "bs1">>],
+  [id |-> "osq", start |-> "code", end |-> "sqc", cont |-> FALSE, opens |-> FALSE, stmt |-> TRUE, needcont |-> FALSE, toks |-> <<"code", "opensq", "text", "bs1">>],
+  [id |-> "osq3", start |-> "code", end |-> "sqc", cont |-> FALSE, opens |-> FALSE, stmt |-> TRUE, needcont |-> FALSE, toks |-> <<"code", "opensq", "text", "bs3">>],
+  [id |-> "odq", start |-> "code", end |-> "dqc", cont |-> FALSE, opens |-> FALSE, stmt |-> TRUE, needcont |-> FALSE, toks |-> <<"code", "opendq", "text", "bs1">>],
+  [id |-> "odq3", start |-> "code", end |-> "dqc", cont |-> FALSE, opens |-> FALSE, stmt |-> TRUE, needcont |-> FALSE, toks |-> <<"code", "opendq", "text", "bs3">>],
+  [id |-> "sb2", start |-> "code", end |-> "code", cont |-> FALSE, opens |-> FALSE, stmt |-> TRUE, needcont |-> FALSE, toks |-> <<"code", "opensq", "text", "bs2", "closesq">>],
+  [id |-> "cb1", start |-> "code", end |-> "code", cont |-> FALSE, opens |-> FALSE, stmt |-> FALSE, needcont |-> FALSE, toks |-> <<"comment", "bs1">>],
+  [id |-> "cb2", start |-> "code", end |-> "code", cont |-> FALSE, opens |-> FALSE, stmt |-> FALSE, needcont |-> FALSE, toks |-> <<"comment", "bs2">>],
+  [id |-> "cb3", start |-> "code", end |-> "code", cont |-> FALSE, opens |-> FALSE, stmt |-> FALSE, needcont |-> FALSE, toks |-> <<"comment", "bs3">>],
+  [id |-> "tcb1", start |-> "code", end |-> "code", cont |-> FALSE, opens |-> FALSE, stmt |-> TRUE, needcont |-> FALSE, toks |-> <<"code", "comment", "bs1">>],
   [id |-> "if", start |-> "code", end |-> "code", cont |-> FALSE, opens |-> TRUE, stmt |-> TRUE, needcont |-> FALSE, toks |-> <<"code", "colon">>],
   [id |-> "blank", start |-> "code", end |-> "code", cont |-> FALSE, opens |-> FALSE, stmt |-> FALSE, needcont |-> FALSE, toks |-> <<>>],
   [id |-> "kq", start |-> "code", end |-> "code", cont |-> FALSE, opens |-> FALSE, stmt |-> TRUE, needcont |-> TRUE, toks |-> <<"str">>],
@@ -61,7 +69,10 @@ Kinds == <<
   [id |-> "xos", start |-> "tsq", end |-> "tsq", cont |-> FALSE, opens |-> FALSE, stmt |-> TRUE, needcont |-> FALSE, toks |-> <<"text">>],
   [id |-> "xhs", start |-> "tsq", end |-> "tsq", cont |-> FALSE, opens |-> FALSE, stmt |-> TRUE, needcont |-> FALSE, toks |-> <<"text">>],
   [id |-> "xbs", start |-> "tsq", end |-> "tsq", cont |-> FALSE, opens |-> FALSE, stmt |-> TRUE, needcont |-> FALSE, toks |-> <<>>],
-  [id |-> "xbss", start |-> "tsq", end |-> "tsq", cont |-> FALSE, opens |-> FALSE, stmt |-> TRUE, needcont |-> FALSE, toks |-> <<"text", "bs">>],
+  [id |-> "xbss", start |-> "tsq", end |-> "tsq", cont |-> FALSE, opens |-> FALSE, stmt |-> TRUE, needcont |-> FALSE, toks |-> <<"text", "bs1">>],
+  [id |-> "xb2s", start |-> "tsq", end |-> "tsq", cont |-> FALSE, opens |-> FALSE, stmt |-> TRUE, needcont |-> FALSE, toks |-> <<"text", "bs2">>],
+  [id |-> "xb3s", start |-> "tsq", end |-> "tsq", cont |-> FALSE, opens |-> FALSE, stmt |-> TRUE, needcont |-> FALSE, toks |-> <<"text", "bs3">>],
+  [id |-> "xb4s", start |-> "tsq", end |-> "tsq", cont |-> FALSE, opens |-> FALSE, stmt |-> TRUE, needcont |-> FALSE, toks |-> <<"text", "bs4">>],
   [id |-> "zs", start |-> "tsq", end |-> "code", cont |-> FALSE, opens |-> FALSE, stmt |-> TRUE, needcont |-> FALSE, toks |-> <<"text", "close3s">>],
   [id |-> "zcs", start |-> "tsq", end |-> "code", cont |-> FALSE, opens |-> FALSE, stmt |-> TRUE, needcont |-> FALSE, toks |-> <<"text", "close3s", "code", "str">>],
   [id |-> "zms", start |-> "tsq", end |-> "code", cont |-> FALSE, opens |-> FALSE, stmt |-> TRUE, needcont |-> FALSE, toks |-> <<"text", "close3s", "comment">>],
@@ -70,32 +81,50 @@ Kinds == <<
   [id |-> "xod", start |-> "tdq", end |-> "tdq", cont |-> FALSE, opens |-> FALSE, stmt |-> TRUE, needcont |-> FALSE, toks |-> <<"text">>],
   [id |-> "xhd", start |-> "tdq", end |-> "tdq", cont |-> FALSE, opens |-> FALSE, stmt |-> TRUE, needcont |-> FALSE, toks |-> <<"text">>],
   [id |-> "xbd", start |-> "tdq", end |-> "tdq", cont |-> FALSE, opens |-> FALSE, stmt |-> TRUE, needcont |-> FALSE, toks |-> <<>>],
-  [id |-> "xbsd", start |-> "tdq", end |-> "tdq", cont |-> FALSE, opens |-> FALSE, stmt |-> TRUE, needcont |-> FALSE, toks |-> <<"text", "bs">>],
+  [id |-> "xbsd", start |-> "tdq", end |-> "tdq", cont |-> FALSE, opens |-> FALSE, stmt |-> TRUE, needcont |-> FALSE, toks |-> <<"text", "bs1">>],
+  [id |-> "xb2d", start |-> "tdq", end |-> "tdq", cont |-> FALSE, opens |-> FALSE, stmt |-> TRUE, needcont |-> FALSE, toks |-> <<"text", "bs2">>],
+  [id |-> "xb3d", start |-> "tdq", end |-> "tdq", cont |-> FALSE, opens |-> FALSE, stmt |-> TRUE, needcont |-> FALSE, toks |-> <<"text", "bs3">>],
+  [id |-> "xb4d", start |-> "tdq", end |-> "tdq", cont |-> FALSE, opens |-> FALSE, stmt |-> TRUE, needcont |-> FALSE, toks |-> <<"text", "bs4">>],
   [id |-> "zd", start |-> "tdq", end |-> "code", cont |-> FALSE, opens |-> FALSE, stmt |-> TRUE, needcont |-> FALSE, toks |-> <<"text", "close3d">>],
   [id |-> "zcd", start |-> "tdq", end |-> "code", cont |-> FALSE, opens |-> FALSE, stmt |-> TRUE, needcont |-> FALSE, toks |-> <<"text", "close3d", "code", "str">>],
   [id |-> "zmd", start |-> "tdq", end |-> "code", cont |-> FALSE, opens |-> FALSE, stmt |-> TRUE, needcont |-> FALSE, toks |-> <<"text", "close3d", "comment">>],
   [id |-> "zod", start |-> "tdq", end |-> "tsq", cont |-> FALSE, opens |-> FALSE, stmt |-> TRUE, needcont |-> FALSE, toks |-> <<"text", "close3d", "code", "open3s", "text">>],
-  [id |-> "q2", start |-> "sqc", end |-> "code", cont |-> FALSE, opens |-> FALSE, stmt |-> TRUE, needcont |-> FALSE, toks |-> <<"text", "closesq">>]
+  [id |-> "q2", start |-> "sqc", end |-> "code", cont |-> FALSE, opens |-> FALSE, stmt |-> TRUE, needcont |-> FALSE, toks |-> <<"text", "closesq">>],
+  [id |-> "qc1", start |-> "sqc", end |-> "sqc", cont |-> FALSE, opens |-> FALSE, stmt |-> TRUE, needcont |-> FALSE, toks |-> <<"text", "bs1">>],
+  [id |-> "qc3", start |-> "sqc", end |-> "sqc", cont |-> FALSE, opens |-> FALSE, stmt |-> TRUE, needcont |-> FALSE, toks |-> <<"text", "bs3">>],
+  [id |-> "q2d", start |-> "dqc", end |-> "code", cont |-> FALSE, opens |-> FALSE, stmt |-> TRUE, needcont |-> FALSE, toks |-> <<"text", "closedq">>],
+  [id |-> "qd1", start |-> "dqc", end |-> "dqc", cont |-> FALSE, opens |-> FALSE, stmt |-> TRUE, needcont |-> FALSE, toks |-> <<"text", "bs1">>]
 >>
+OddRuns == {"bs1", "bs3"}        \* a run of n backslashes at the end of a physical line
+EvenRuns == {"bs2", "bs4"}
 \* the token automaton: lexical mode after an item ("bad": the item cannot occur there)
 Delta(m, t) ==
-  CASE m = "code" /\ t \in {"code", "str", "colon", "bs"} -> "code"
+  CASE m = "code" /\ t \in {"code", "str", "colon", "bs1"} -> "code"   \* outside strings only ONE backslash may end a line
     [] m = "code" /\ t = "comment" -> "eol"             \* the rest of the line is comment
     [] m = "code" /\ t = "open3s" -> "tsq"
     [] m = "code" /\ t = "open3d" -> "tdq"
     [] m = "code" /\ t = "opensq" -> "sq"
-    [] m = "sq" /\ t \in {"text", "bs"} -> (IF t = "bs" THEN "sqc" ELSE "sq")
+    [] m = "code" /\ t = "opendq" -> "dq"
+    [] m \in {"sq", "dq"} /\ t = "text" -> m
+    [] m \in {"sq", "dq"} /\ t \in EvenRuns -> m            \* escaped backslashes only
+    [] m = "sq" /\ t \in OddRuns -> "sqc"                   \* (escaped backslashes and) backslash-newline
+    [] m = "dq" /\ t \in OddRuns -> "dqc"
     [] m = "sqc" /\ t = "text" -> "sq"
+    [] m = "dqc" /\ t = "text" -> "dq"
     [] m = "sq" /\ t = "closesq" -> "code"
-    [] m = "tsq" /\ t \in {"text", "bs"} -> "tsq"
-    [] m = "tdq" /\ t \in {"text", "bs"} -> "tdq"
+    [] m = "dq" /\ t = "closedq" -> "code"
+    [] m \in {"tsq", "tdq"} /\ t \in {"text"} \cup OddRuns \cup EvenRuns -> m
     [] m = "tsq" /\ t = "close3s" -> "code"
     [] m = "tdq" /\ t = "close3d" -> "code"
     [] m = "eol" -> "eol"
     [] OTHER -> "bad"
 RECURSIVE Fold(_, _)
 Fold(m, toks) == IF toks = <<>> THEN m ELSE Fold(Delta(m, Head(toks)), Tail(toks))
-EndMode(m, toks) == LET e == Fold(m, toks) IN IF e = "eol" THEN "code" ELSE e
+\* a '...' / "..." string still open at the end of the line without continuation is not Python
+EndMode(m, toks) == LET e == Fold(m, toks) IN IF e = "eol" THEN "code" ELSE IF e \in {"sq", "dq"} THEN "bad" ELSE e
+\* Python's rule for the pending continuation: the line ends, outside strings and comments, in one backslash
+ContOf(m, toks) == /\ toks # <<>> /\ toks[Len(toks)] \in OddRuns
+                   /\ Fold(m, SubSeq(toks, 1, Len(toks) - 1)) = "code"
 
 VARIABLES lines, flags, rels, mode, cont, lvl, due, pc
 vars == <<lines, flags, rels, mode, cont, lvl, due, pc>>
@@ -125,9 +154,10 @@ Spec == Init /\ [][Next]_vars
 \* the declared start/end modes of every line kind are what the token automaton computes
 TableConsistent == \A i \in 1..Len(Kinds) :
                       /\ EndMode(Kinds[i].start, Kinds[i].toks) = Kinds[i].end
-                      /\ Kinds[i].start \in {"code", "tsq", "tdq", "sqc"}
+                      /\ Kinds[i].start \in {"code", "tsq", "tdq", "sqc", "dqc"}
+                      /\ Kinds[i].cont = ContOf(Kinds[i].start, Kinds[i].toks)
 \* string content is never re-margined; every line outside strings that starts a logical line is
-Modes == {"code", "tsq", "tdq", "sqc"}
+Modes == {"code", "tsq", "tdq", "sqc", "dqc"}
 Shape == /\ Len(flags) = Len(lines) /\ Len(rels) = Len(lines) /\ mode \in Modes
          /\ \A j \in 1..Len(flags) : flags[j] \in {"strip", "either", "keep"}
          /\ \A j \in 1..Len(flags) : (flags[j] # "strip" => rels[j] = 0)
